@@ -41,7 +41,7 @@ case "$prop" in C04|C05|C11|C18)
   fi
   rm -f ".work/clkbuild-$$.log" ;;
 esac
-if { [ "$prop" = "C17" ] || [ "$prop" = "C02" ]; } && [ "$mode" != "replay" ]; then
+if { [ "$prop" = "C17" ] || [ "$prop" = "C02" ] || [ "$prop" = "C07" ]; } && [ "$mode" != "replay" ]; then
   # the free-running race pass needs the -race twin, rebuilt from the current tree
   # (its own file per invocation: concurrent runs against other trees must not share it)
   if go build $modflag -race -o ".work/check-race-$$" ./cmd/check 2>/dev/null; then export VERIF_RACE_BIN="$root/.work/check-race-$$"; fi
